@@ -14,11 +14,18 @@ func targetFor(data []byte, mode string) float64 {
 	case "never": // 60 trailing zeros: unattainable in a test run
 		return math.Pow(3, 60) / ln
 	}
+	if mode == "slow" { // 8 trailing zeros: some hundred batches
+		return math.Pow(3, 8) / ln
+	}
 	return math.Pow(3, 4) / ln // "either": about one batch in 1.3 finds
 }
 
 func mineCall(ctx context.Context, data []byte, mode string, nw int) (uint64, error) {
 	return New(nw).Mine(ctx, data, targetFor(data, mode))
+}
+
+func mineOn(w *Worker, ctx context.Context, data []byte, mode string) (uint64, error) {
+	return w.Mine(ctx, data, targetFor(data, mode))
 }
 
 func nonceOK(data []byte, nonce uint64, mode string) bool {
